@@ -373,6 +373,7 @@ def do_stat(res, case, tier, pal):
     _, shape, attr, sel, view, axis = case
     core.reset_globals()
     w = StatWorld(shape, sel, pal)
+    done = []
     for n_chunk in chunk_list(shape, view, axis, tier):
         for stat, pct in STATS:
             for finite in (True, False):
@@ -383,14 +384,48 @@ def do_stat(res, case, tier, pal):
                     res.case(sig=sig_of(shape, attr, sel, view, axis, stat, pct, finite, positive, n_chunk)
                              if nontrivial else None, sample=desc)
                     res.count('stat_evaluations|' + w.last_class)
+                    call = [stat, pct, finite, positive, n_chunk]
                     if key is not None:
                         res.count('stat_violating|' + w.last_class)
+                        # the requests of one case share the dataset and the selection object: a violation may
+                        # need earlier requests (what a viewer does all day) - keep the minimal such prefix
+                        prefix = stat_prefix(desc, done, key)
+                        if prefix:
+                            desc = dict(desc, prefix=prefix)
+                            key += '|after-earlier-requests'
                         res.violation('statistic-equals-definition', key, desc, obs, exp)
+                        core.reset_globals()
+                        w = StatWorld(shape, sel, pal)
+                        done = []
+                    else:
+                        done.append(call)
+
+
+def stat_prefix(desc, done, key):
+    def repro(prefix):
+        return confirm_stat(dict(desc, prefix=prefix))[0] == key
+    if repro([]):
+        return []
+    prefix = list(done)
+    if not repro(prefix):
+        raise core.EngineError('ENGINE-NONDETERMINISM: %s not reproduced on fresh objects after the same requests: %r'
+                               % (key, dict(desc, prefix=prefix)))
+    if repro(prefix[-1:]):
+        return prefix[-1:]
+    i = len(prefix) - 1
+    while i >= 0:
+        cand = prefix[:i] + prefix[i + 1:]
+        if repro(cand):
+            prefix = cand
+        i -= 1
+    return prefix
 
 
 def confirm_stat(c):
     core.reset_globals()
     w = StatWorld(c['shape'], c['sel'], c['palette'])
+    for stat, pct, finite, positive, n_chunk in c.get('prefix') or []:
+        eval_stat(w, c['attr'], c['view'], c['axis'], stat, pct, finite, positive, n_chunk)
     key, obs, exp, _ = eval_stat(w, c['attr'], c['view'], c['axis'], c['stat'], c['pct'], c['finite'],
                                  c['positive'], c['n_chunk'])
     return key, obs, exp
@@ -778,6 +813,8 @@ def run(tier):
 def confirm(v, verbose=False):
     c = v['case']
     key, obs, exp = CONFIRM[c['kind']](c)
+    if key is not None and c.get('prefix'):
+        key += '|after-earlier-requests'
     if verbose:
         print('  case    ', core._clip(c))
         print('  observed', core._clip(obs), ' key=%s' % key)
